@@ -453,4 +453,34 @@ theorem exec_ins (f : List α → List ρ) (fails : Nat → Bool) (b : Bool) (as
     · have := ih _ r' he
       simp [this, inputs]
 
+theorem exec_snoc (f : List α → List ρ) (fails : Nat → Bool) (b : Bool) (as : List (Act α)) (a : Act α) :
+    ∀ (r : Run α ρ), exec f fails b r (as ++ [a]) =
+      (exec f fails b r as).bind (fun r1 => (step f fails b r1.st a).map
+        (fun p => { st := p.1, ins := r1.ins ++ inputOf a, out := r1.out ++ p.2 })) := by
+  induction as with
+  | nil =>
+    intro r
+    cases h : step f fails b r.st a with
+    | none => simp [exec, h]
+    | some p => obtain ⟨s1, o⟩ := p; simp [exec, h]
+  | cons x xs ih =>
+    intro r
+    cases h : step f fails b r.st x with
+    | none => simp [exec, h]
+    | some p => obtain ⟨s1, o⟩ := p; simp only [List.cons_append, exec, h]; exact ih _
+
+/-- only the consumer's `recv` produces an observation, and it produces exactly one value -/
+theorem step_out (f : List α → List ρ) (fails : Nat → Bool) (b : Bool) (s s' : St α ρ) (a : Act α) (o : List ρ)
+    (hs : step f fails b s a = some (s', o)) : (a = .recv → ∃ v, o = [v]) ∧ (a ≠ .recv → o = []) := by
+  cases a <;> simp only [step] at hs <;> (repeat' (split at hs)) <;>
+    first
+      | (simp at hs; done)
+      | (simp only [Option.some.injEq, Prod.mk.injEq] at hs; obtain ⟨_, rfl⟩ := hs; simp)
+      | (simp only [Option.some.injEq, Prod.mk.injEq] at hs; obtain ⟨_, _, rfl⟩ := hs; simp)
+      | (simp only [Option.ite_none_right_eq_some, Option.some.injEq, Prod.mk.injEq] at hs; obtain ⟨_, _, rfl⟩ := hs; simp)
+      | (simp only [Option.ite_none_left_eq_some, Option.some.injEq, Prod.mk.injEq] at hs; obtain ⟨_, _, rfl⟩ := hs; simp)
+
+theorem inputs_snoc (as : List (Act α)) (a : Act α) : inputs (as ++ [a]) = inputs as ++ inputOf a := by
+  simp [inputs]
+
 end Rxn.Reorder
